@@ -63,6 +63,36 @@ CLAIMS = {
        "or iteration order over runtime key sets.",
   note="Trusted: clang AST/CFG; depth domain [0, ll] from the class's own constant.",
   design_ref="DESIGN.md §3 C09, §2 B3/E"),
+ "C13": dict(
+  technique="static analysis: abstract evaluation of accessors, swap-completeness, loop-range agreement, per-path link write sets, rvalue-forwarding in loops",
+  text="Decides structural clauses of C13 on vector, small_vector, dyn_array, stack, list, intrusive_list: empty() is true "
+       "exactly when the size field is zero; front()/back() subscript 0 / size-1; swap exchanges every field; the range "
+       "relocated by growth equals the range destroyed equals [0,size); rvalue-forwarded arguments are not consumed in a "
+       "loop; small_vector's inline/heap choice is one predicate of _capacity used consistently; every path of the "
+       "intrusive list's push/insert/erase/splice repairs both link directions, updates the moved list end and the "
+       "in_list flag. Does not decide equality with a reference sequence after arbitrary histories.",
+  note="Trusted: clang AST/CFG of tu/sequences.cpp (Elem/Alloc witnesses). Path-sensitive only in the abstract domains named.",
+  design_ref="DESIGN.md §3 C13, §2 P/S/O5/R/H"),
+ "C14": dict(
+  technique="static analysis: reaching-definition of capacity-derived indices killed by capacity-writing calls; index/table pairing; path counting",
+  text="Decides structural clauses of C14 on hash_map (two key types): no bucket index computed modulo the capacity is used "
+       "after a call that may change the capacity unless recomputed; an index reduced modulo c subscripts only the table "
+       "with c buckets; every index is hasher(key concerned) % capacity; on every path constructs equal ++_size and "
+       "destructs equal --_size and rehash() does none of them; insert() grows before computing its bucket; no node is "
+       "touched after its release; empty() polarity. Does not decide agreement with a reference map over histories.",
+  note="Trusted: clang AST/CFG of tu/hash_map.cpp; callee summaries 'may write _capacity' computed over the class's call graph.",
+  design_ref="DESIGN.md §3 C14, §2 K/E"),
+ "C16": dict(
+  technique="static analysis: allocation escape/free typestate, owner special-member table, allocate/deallocate size agreement, destroy-before-free dominance, use-after-release typestate, compile witness",
+  text="Decides structural clauses of C16 over all owning types: (O1) every allocator block is on every path stored in an "
+       "owning place, returned, passed to a parameter that can own it, or freed; (O2) every allocating class has a "
+       "releasing user destructor and no implicit shallow copy; (O3) deallocate sizes equal the allocation sizes; (O4) "
+       "element buffers are released only after the destruction of their live range; (O5) growth relocates exactly the "
+       "live range; (O7) nothing is accessed through a pointer after its release; (W1) every member of the holder "
+       "templates is well-formed. Does not decide exactly-once as a count over arbitrary histories; radix erase leaks "
+       "by design (DESIGN.md §3 C16).",
+  note="Trusted: clang AST/CFG of five instantiation units; ownership by pointer-to-const convention (a const T* parameter never owns).",
+  design_ref="DESIGN.md §3 C16, §2 O1-O7/W1"),
 }
 
 NOT_YET = "check not built yet in this revision (see DESIGN.md §7 order of work); not claimed until it exists"
